@@ -58,6 +58,25 @@ def terminators():
         ('user-str-empty', ['class Boom(Exception):', '    def __str__(self):', '        return ""', 'raise Boom()'],
          'Boom', ['Boom', 'Exception', 'BaseException', 'object'], 3),
         ('user-base', ['class Base(BaseException):', '    pass', 'raise Base("x")'], 'Base', ['Base', 'BaseException', 'object'], 2),
+        ('user-falsy-len', ['class Boom(Exception):', '    def __len__(self):', '        return 0', 'raise Boom("x")'],
+         'Boom', ['Boom', 'Exception', 'BaseException', 'object'], 3),
+        ('user-falsy-bool', ['class Boom(Exception):', '    def __bool__(self):', '        return False', 'raise Boom("x")'],
+         'Boom', ['Boom', 'Exception', 'BaseException', 'object'], 3),
+        ('user-bool-raises', ['class Boom(Exception):', '    def __bool__(self):', '        raise ValueError("no bool")', 'raise Boom("x")'],
+         'Boom', ['Boom', 'Exception', 'BaseException', 'object'], 3),
+        ('user-setattr-raises', ['class Boom(Exception):', '    def __setattr__(self, k, v):', '        raise ValueError("frozen")', 'raise Boom("x")'],
+         'Boom', ['Boom', 'Exception', 'BaseException', 'object'], 3),
+        ('user-eq-raises', ['class Boom(Exception):', '    def __eq__(self, o):', '        raise ValueError("no eq")', '    __hash__ = None', 'raise Boom("x")'],
+         'Boom', ['Boom', 'Exception', 'BaseException', 'object'], 4),
+        ('user-args-str-raises', ['class Boom(Exception):', '    def __str__(self):', '        raise ValueError("no str")', 'raise Boom("details", 42)'],
+         'Boom', ['Boom', 'Exception', 'BaseException', 'object'], 3),
+        ('empty-message', ['raise ValueError("")'], 'ValueError', ['ValueError', 'Exception', 'BaseException', 'object'], 0),
+        ('assert-empty-message', ['assert 1 == 2, ""'], 'AssertionError', ['AssertionError', 'Exception', 'BaseException', 'object'], 0),
+        ('sys-exit-empty', ['import sys', 'sys.exit("")'], 'SystemExit', ['SystemExit', 'BaseException', 'object'], 1),
+        ('syntaxerror-foreign-file', ['raise SyntaxError("bad", ("foreign.py", 1, 1, "x"))'], 'SyntaxError',
+         ['SyntaxError', 'Exception', 'BaseException', 'object'], None),
+        ('syntaxerror-multiline-foreign', ['raise SyntaxError("bad", ("foreign.py", 1, 1, "x", 2, 3))'], 'SyntaxError',
+         ['SyntaxError', 'Exception', 'BaseException', 'object'], None),
         ('user-keyerror-sub', ['class MyKey(KeyError):', '    pass', 'raise MyKey("k")'], 'KeyError',
          ['MyKey', 'KeyError', 'LookupError', 'Exception', 'BaseException', 'object'], 2),
     ]
@@ -153,6 +172,30 @@ def build_cases(rng, tier):
                             {'entry': 'runcode', 'code': 'print("a")\ninstructor_helper()\nprint("b")\n', 'nested': 'inner'},
                             {'entry': 'call', 'fn': 'inner', 'probe': True}],
                   'chosen': [], 'cls': None, 'mro': None, 'where': 'exec', 'line': None, 'raise_file': 'answer.py'})
+    # student code that tampers with the very objects pedal patched, ending normally or with an exception
+    tamper = [('close-stdout', 'import sys\nprint("a")\nsys.stdout.close()\n', [None, 'native', 'calls']),
+              ('close-stdout-raise', 'import sys\nsys.stdout.close()\nraise ValueError("x")\n', [None, 'native']),
+              ('stdout-none', 'import sys\nsys.stdout = None\n', [None, 'coverage']),
+              ('stdout-replaced', 'import sys, io\nsys.stdout = io.StringIO()\nprint("lost")\n', [None, 'native']),
+              ('stdout-deleted', 'import sys\ndel sys.stdout\n', [None]),
+              ('sleep-replaced', 'import time\ntime.sleep = None\n', [None, 'native']),
+              ('sleep-deleted', 'import time\ndel time.sleep\n', [None]),
+              ('student-settrace', 'import sys\nsys.settrace(lambda *a: None)\nx = 1\n', ['native']),
+              ('student-settrace-none', 'import sys\nsys.settrace(None)\nx = 1\n', ['native']),
+              ('student-settrace-raise', 'import sys\nsys.settrace(lambda *a: None)\nraise ValueError("x")\n', ['native'])]
+    for tag, code, tracers in tamper:
+        for tracer in tracers:
+            for via in ('run', 'call'):
+                if via == 'run':
+                    files = {'answer.py': code}
+                    steps = [{'entry': 'run', 'tracer': tracer}]
+                else:
+                    body = ''.join('    ' + l + '\n' for l in code.splitlines())
+                    files = {'answer.py': 'def t():\n' + body + '    return 1\n'}
+                    steps = [{'entry': 'run', 'setup': True}, {'entry': 'call', 'fn': 't', 'tracer': tracer}]
+                steps.append({'entry': 'runcode', 'code': 'print("next")\n', 'probe': True})
+                cases.append({'tag': 'tamper:' + tag, 'entry': 'history', 'files': files, 'steps': steps, 'chosen': [],
+                              'cls': None, 'mro': None, 'where': 'exec', 'line': None, 'raise_file': 'answer.py'})
     # histories: several executions in one sandbox, state must be clean after each
     for _ in range(12 if tier == 'quick' else 80):
         steps = []
